@@ -17,8 +17,11 @@ def levels(tier):
     alpha = ["page", "links", "we", "addprefix", "moveprefix", "rule", "delwe"]
     if tier == "quick":
         return [
-            {"name": "n2", "n": 2, "alphabet": alpha, "links_batch": 1, "rule_patterns": ["path1", "path2"], "defaults": ["domain", "never"]},
-            {"name": "n3", "n": 3, "alphabet": ["page", "we", "addprefix", "moveprefix"], "defaults": ["never"]},
+            {"name": "n2", "n": 2, "alphabet": alpha, "links_batch": 1, "rule_patterns": ["path1"], "defaults": ["domain", "never"],
+             "pool": POOL[:3]},
+            {"name": "n3", "n": 3, "alphabet": ["page", "we", "addprefix"], "defaults": ["never"], "pool": POOL[:3]},
+            {"name": "tpl-n2", "n": 2, "prelude": [["links", [[2, 3], [3, 1]]]], "alphabet": ["we", "addprefix", "moveprefix", "rule"],
+             "rule_patterns": ["path1"], "defaults": ["never"]},
         ]
     return [
         {"name": "n2", "n": 2, "alphabet": alpha, "links_batch": 2, "rule_patterns": ["path1", "path2", "subdomain"], "defaults": ["domain", "never", "path1"]},
@@ -64,16 +67,17 @@ def battery(E, t, h):
 
 def harness(E):
     P = E.params
-    pool = typed_pool(E, POOL, L=1)
+    pool = typed_pool(E, P.get("pool", POOL), L=1)
     default = P["defaults"][E.choose("default", len(P["defaults"]))]
     ref = Ref()
     ref.default_rule = None if default == "never" else default
     t = E.Traph(folder=None, default_webentity_creation_rule=NEVER if default == "never" else RULES[default], webentity_creation_rules={})
     h = History(E, t, ref, pool, P["alphabet"], P)
-    first_kind = None
+    h.prelude(P.get("prelude"))
+    first_kind = "links" if P.get("prelude") else None
     for i in range(P["n"]):
         kind, info = h.step(i)
-        if i == 0:
+        if i == 0 and first_kind is None:
             first_kind = kind
         if first_kind in ("page", "links") and kind in ("we", "addprefix", "rule") and default == "never":
             E.reach("unmarked-path-first")
